@@ -7,7 +7,7 @@ from hypothesis import strategies as st
 from pbt import strategies as S
 from pbt.common import Stats, Sub, Violation
 from pbt.model import Model, uri_prefixes_of
-from pbt.sut import Converter, case_insensitive_build_is_equivalent, mk_incremental_queried, mk_record, mk_records, mk_after_rejected_calls, mk_bystander, mk_remerged, mk_split_merge
+from pbt.sut import Converter, case_insensitive_build_is_equivalent, mk_incremental_queried, mk_record, mk_records, mk_after_rejected_calls, mk_bystander, mk_remerged, mk_sibling_same_list, mk_split_merge
 
 PROPERTY_ID = "C01"
 RULE = (
@@ -39,6 +39,7 @@ def cases(draw, tier="quick"):
             max_records=(25 if draw(st.integers(0, 5)) == 0 else 9) if big else 6,
             max_syn=(10 if draw(st.integers(0, 5)) == 0 else 6) if big else 4,
             prefix_no_delimiter=draw(st.booleans()),
+            foreign_delimiters=True,
         )
     )
     n = len(recs)
@@ -80,6 +81,8 @@ def _variants(case):
     if case_insensitive_build_is_equivalent(spec):
         out["re-merged-into-itself-case-insensitively"] = mk_remerged(spec)
     out["after-calls-that-must-be-rejected"] = mk_after_rejected_calls(spec)
+    if recs:
+        out["constructed-from-a-list-shared-with-an-extended-sibling"] = mk_sibling_same_list(spec)
     out["by-standing input of chain / get_subconverter / remap_* / rewire / discover"] = mk_bystander(spec)
     if case_insensitive_build_is_equivalent(spec):
         # synonyms that are case variants of strings of their OWN record arrive through case-insensitive merges
